@@ -236,6 +236,8 @@ def report_resp(chk, pid, tr, known_closure=False):
             'closure_case': (tr.get('arr', 'threads') + ':response') if (tr.get('asis') and known_closure) else None,
             'stale_kind': tr.get('stale_kind')}
     rq = tr['reqs'][i] if i < len(tr['reqs']) else tr['reqs']
+    if 'arr' in tr:
+        rq = 'arrangement %s' % tr['arr']
     chk.violation('%s: response #%d of %s differs from the response the same request gets when served alone; '
                   'schedule %s...' % (pid, i, rq, tr['sched'][:30]), case)
 
@@ -514,7 +516,22 @@ def run_c10(chk):
             seq = [(lambda: L.serve(a, L.environ_for('listen', 'LS'))),
                    (lambda: L.serve(other, L.environ_for('assign', 'AS'))),
                    (lambda: L.serve(other, L.environ_for('mutq', 'MQ')))]
-            expect = [solo('listen', 'LS'), solo('assign', 'AS'), solo('mutq', 'MQ')]
+            # the references of the observers are computed before anything subscribes anywhere in this process
+            e_as, e_mq = solo('assign', 'AS'), solo('mutq', 'MQ')
+            expect = [solo('listen', 'LS'), e_as, e_mq]
+            reqs, apps = [seq], [a]
+            flat = True
+        elif arr == 'status_table':
+            # a answers with its own reason phrase for a code without a registered one; b and the default application use the code
+            d = ombott.app
+            if not getattr(d, '_verif_routes', False):
+                L.make_app(app=d)
+                d._verif_routes = True
+            # references from fresh interpreters: the first use of the code in THIS process is a's custom phrase
+            seq = [(lambda: L.serve(a, L.environ_for('stat_s', 'S0'))),
+                   (lambda: L.serve(b, L.environ_for('stat_n', 'N1'))),
+                   (lambda: L.serve(d, L.environ_for('stat_n', 'N2')))]
+            expect = core.parallel([(lambda k=k, n=n: L.solo_fresh_interpreter(k, n)) for k, n in (('stat_s', 'S0'), ('stat_n', 'N1'), ('stat_n', 'N2'))], max_workers=3)
             reqs, apps = [seq], [a]
             flat = True
         elif arr == 'lazy_drain':
@@ -553,7 +570,7 @@ def run_c10(chk):
             raise core.MachineryError(arr)
         res, tr, taken = L.run_threads(apps, reqs, sched, acc if acc.ok else None)
         ok = []
-        if arr in ('alternate', 'create_between', 'listener'):
+        if arr in ('alternate', 'create_between', 'listener', 'status_table'):
             ok = [res[0][i] == expect[i] for i in range(len(expect))]
         elif arr == 'lazy_drain':
             got_a, got_mid = res[0][0]
@@ -588,6 +605,8 @@ def run_c10(chk):
         return tr
 
     # arrangements inside C10's quantifier that the code as it is supports
+    run_arr('status_table', [])      # first: nothing has subscribed / set a custom status anywhere in this process yet
+    run_arr('listener', [])
     for _ in range(40 if thorough else 8):
         run_arr('alternate', [])
         run_arr('create_between', [])
